@@ -27,7 +27,7 @@ TECHNIQUE = ("deterministic simulation: N client tasks against scripted servers 
              "outcomes, task cancellation and connector.close() before arbitrary steps; harness-side pool accounting "
              "checked after every loop step and at quiescence")
 LEVEL_TEXT = (
-    "Seeded exploration of interleavings of N<=8 requests to H<=3 hosts under (limit, limit_per_host) in {0..3}x{0..2}, "
+    "Seeded exploration of interleavings of N<=8 tasks (1-3 requests each) to H<=3 hosts under (limit, limit_per_host) in {0..3}x{0..2}, "
     "where each connection attempt may succeed, fail, stall or be delayed, tasks are cancelled and the connector is "
     "closed before seeded loop steps. After every step: connections handed out + attempts in progress <= limit (and per "
     "host); at quiescence: no task waits for a slot while capacity is free, nothing stays counted after all tasks ended, "
@@ -50,6 +50,10 @@ RULE = (
     "12 % of runs aim the close at a state: d ms after at least k requests are queued for a slot; a scheduled close goes through "
     "connector.close() or (30 %) through close() of the session owning the connector, and in 35 % of the runs with a close every "
     "connection attempt / name lookup that starts after it gets its own outcome (ok, refused, stalls for ever). "
+    "15 % of runs have worker loops: a task goes on to 1-2 further requests in the very loop step in which it let go of its "
+    "previous connection (half of them let go of a response that is still arriving, so the connection cannot be pooled) and "
+    "may, just before or after letting go, cancel one or all of the requests queued for a slot at that moment - release, waiter "
+    "cancellation and a new arrival for the same endpoint inside one loop step. "
     "Non-trivial: at least one task had to wait for a slot. Distinct = interleaving signature."
 )
 COMPONENTS = {
@@ -152,7 +156,36 @@ def gen(rng, tier, index):
         if rng.random() < 0.35:
             scn["after_close"] = {"connect": [rng.choice(["ok", "stall", "refuse", "stall"]), rng.choice([0, 1, 5])],
                                   "dns": rng.choice(["ok", "ok", "stall"])}
+    # Worker loops (drawn after everything else): a task does not end with its first request but goes straight on to
+    # its next one - in the very loop step in which it let go of the previous connection - and may, just before or just
+    # after letting go, cancel another task (a supervisor giving up a queued request).  Release, cancellation of a
+    # waiter and a new arrival for the same endpoint then fall into ONE loop step, before the cancelled / woken waiter
+    # has run again: the orders "any interleaving of acquisitions, releases, ... task cancellations" that separate
+    # one-request tasks and cancels between steps do not produce.  A limit is needed for anybody to queue.
+    if rng.random() < 0.15:
+        for i, t in enumerate(tasks):
+            if rng.random() < 0.6:
+                t["then"] = [{"host": t["host"] if rng.random() < 0.75 else rng.randrange(nh),
+                              "beh": rng.choice(["fast", "fast", "slow:5", "connclose", "never"]),
+                              "hold": rng.choice([0, 0, 1, 5]), "after": rng.choice(["read", "release", "close"]),
+                              "total": rng.choice([None, None, 0.2])} for _ in range(rng.choice([1, 1, 2]))]
+                if rng.random() < 0.5:
+                    # it lets go of a connection whose response is still arriving, which cannot go back to the pool:
+                    # the freed slot is one for a new connection
+                    t.update(beh=rng.choice(["slow:5", "slow:40", "slow:40"]), after=rng.choice(["release", "close"]),
+                             hold=rng.choice([0, 1, 5]))
+                if n > 1 and rng.random() < 0.5:
+                    # whom it gives up: the k-th of the requests queued for a slot at that moment ("one") or all of
+                    # them; task k if nobody is queued
+                    t["kill"] = [rng.randrange(8), rng.choice(["before", "before", "after"]), rng.choice(["one", "one", "all"])]
+        if not scn["limit"] and not scn["lph"]:
+            scn["limit"] = rng.choice([1, 1, 2])
     return scn
+
+
+def requests_of(spec):
+    """The requests a task makes, in order: its own and the follow-ups of a worker loop (same route as the first)."""
+    return [spec] + [dict(f, via=spec.get("via")) for f in spec.get("then") or []]
 
 
 # CONNECT answers of the scripted proxy: "<status>" answers and keeps the connection open, "<status>close" answers and
@@ -206,6 +239,23 @@ def shrink(scn):
     if scn["dns"]:
         yield dict(scn, dns=None)
     ts = scn["tasks"]
+    for i, t in enumerate(ts):
+        if t.get("kill"):
+            yield dict(scn, tasks=ts[:i] + [{k: v for k, v in t.items() if k != "kill"}] + ts[i + 1:])
+            if t["kill"][2] == "all":
+                yield dict(scn, tasks=ts[:i] + [dict(t, kill=t["kill"][:2] + ["one"])] + ts[i + 1:])
+            if t["kill"][0]:
+                yield dict(scn, tasks=ts[:i] + [dict(t, kill=[0] + t["kill"][1:])] + ts[i + 1:])
+        if t.get("then"):
+            th = t["then"]
+            yield dict(scn, tasks=ts[:i] + [{k: v for k, v in t.items() if k != "then"}] + ts[i + 1:])
+            if len(th) > 1:
+                for j in range(len(th)):
+                    yield dict(scn, tasks=ts[:i] + [dict(t, then=th[:j] + th[j + 1:])] + ts[i + 1:])
+            for j, f in enumerate(th):
+                for k, v in (("hold", 0), ("total", None), ("beh", "fast"), ("after", "read"), ("host", t["host"])):
+                    if f[k] != v:
+                        yield dict(scn, tasks=ts[:i] + [dict(t, then=th[:j] + [dict(f, **{k: v})] + th[j + 1:])] + ts[i + 1:])
     if len(ts) > 1:
         for i in range(len(ts)):
             keep = ts[:i] + ts[i + 1:]
@@ -246,6 +296,8 @@ class Harness:
         self.in_queue = {}    # task name -> depth inside the connector's wait-for-a-slot routine
         self.snap = None      # taken at the instant close() runs: who was waiting for a slot then
         self.post_close_attempts = 0
+        self.followups = 0
+        self.cancelled_in_queue_by_task = 0
 
 
 def run(scn, ch, log=False):
@@ -492,35 +544,69 @@ def run(scn, ch, log=False):
             tasks = {}
             state = {"closed": False, "connector": None, "session": None}
 
-            async def worker(i, spec):
-                if spec["delay"]:
-                    await asyncio.sleep(spec["delay"] * 0.001)
-                host = HOSTS[spec["host"]][0]
-                beh = spec["beh"]
-                path = "/" + (beh.replace(":", "/")) + f"/t{i}"
-                phase[i] = "requesting"
-                try:
-                    to = aiohttp.ClientTimeout(total=spec["total"])
-                    via = spec.get("via")
-                    if via:
-                        resp = await state["session"].get(f"{via}://{host}{path}", timeout=to, proxy=PROXY_URL)
-                    else:
-                        resp = await state["session"].get(f"http://{host}{path}", timeout=to)
-                    phase[i] = "holding"
-                    if spec["hold"]:
-                        await asyncio.sleep(spec["hold"] * 0.001)
-                    if spec["after"] == "read":
-                        await resp.read()
-                    elif spec["after"] == "release":
-                        resp.release()
-                    else:
-                        resp.close()
-                    phase[i] = "done"
-                except asyncio.CancelledError:
-                    phase[i] = "cancelled"
-                    raise
-                except Exception as e:
-                    phase[i] = "failed:" + type(e).__name__
+            cur = {}  # task index -> the request it is making now
+
+            def give_up(i, kill):
+                # a task cancels other ones (worker loops): same bookkeeping as a cancel injected between steps
+                k, _when, scope = kill
+                queued = sorted(int(n_[1:]) for n_ in H.in_queue if n_ != f"w{i}" and n_[1:].isdigit())
+                if not queued:
+                    targets = [k % len(tasks)]
+                elif scope == "all":
+                    targets = queued
+                else:
+                    targets = [queued[k % len(queued)]]
+                for ti in targets:
+                    t = tasks.get(ti)
+                    if ti != i and t is not None and not t.done():
+                        if phase.get(ti) == "requesting" and f"w{ti}" not in H.got_conn:
+                            H.cancelled_while_requesting = True
+                            if f"w{ti}" in H.in_queue:
+                                H.cancelled_in_queue_by_task += 1
+                        loop.faults["cancel_by_task"] += 1
+                        loop.note("cancel_by_task", f"w{i}->w{ti}")
+                        t.cancel()
+
+            async def worker(i, first):
+                if first["delay"]:
+                    await asyncio.sleep(first["delay"] * 0.001)
+                kill = first.get("kill")
+                for nreq, spec in enumerate(requests_of(first)):
+                    host = HOSTS[spec["host"]][0]
+                    beh = spec["beh"]
+                    path = "/" + (beh.replace(":", "/")) + f"/t{i}"
+                    if nreq:
+                        # the next request of a worker loop starts in the step that ended the previous one
+                        H.got_conn.discard(f"w{i}")
+                        H.followups += 1
+                    cur[i] = spec
+                    phase[i] = "requesting"
+                    try:
+                        to = aiohttp.ClientTimeout(total=spec["total"])
+                        via = spec.get("via")
+                        if via:
+                            resp = await state["session"].get(f"{via}://{host}{path}", timeout=to, proxy=PROXY_URL)
+                        else:
+                            resp = await state["session"].get(f"http://{host}{path}", timeout=to)
+                        phase[i] = "holding"
+                        if spec["hold"]:
+                            await asyncio.sleep(spec["hold"] * 0.001)
+                        if kill and not nreq and kill[1] == "before":
+                            give_up(i, kill)
+                        if spec["after"] == "read":
+                            await resp.read()
+                        elif spec["after"] == "release":
+                            resp.release()
+                        else:
+                            resp.close()
+                        if kill and not nreq and kill[1] == "after":
+                            give_up(i, kill)
+                        phase[i] = "done"
+                    except asyncio.CancelledError:
+                        phase[i] = "cancelled"
+                        raise
+                    except Exception as e:
+                        phase[i] = "failed:" + type(e).__name__
 
             async def setup():
                 conn = TConnector(resolver=resolver, limit=limit, limit_per_host=lph, force_close=scn["force_close"],
@@ -633,8 +719,9 @@ def run(scn, ch, log=False):
                 for h, k in H.est_host.items():
                     per[h] = per.get(h, 0) + k
                 tot = len(H.out) + H.est
+                all_reqs = [r for t_ in scn["tasks"] for r in requests_of(t_)]
                 for i in pending:
-                    spec = scn["tasks"][i]
+                    spec = cur.get(i) or scn["tasks"][i]
                     if phase.get(i) != "requesting" or f"w{i}" in H.got_conn or f"w{i}" in H.establishing:
                         continue  # it has its connection (waiting for the peer) or is resolving/connecting
                     host = endpoint_of_task(spec)
@@ -643,8 +730,8 @@ def run(scn, ch, log=False):
                     # is the task past the pool (resolving / connecting)?  then est counts it
                     if free_total and free_host:
                         waiting = [len(v) for v in conn._waiters.values()]
-                        violate("no_lost_wakeup", "waiter_blocked_with_free_capacity:" + ("several_host_queues" if (lph and len({endpoint_of_task(t_) for t_ in scn["tasks"]}) > 1)
-                                                                                    else ("after_waiter_cancelled_or_timed_out" if (H.cancelled_while_requesting or any(t_["total"] for t_ in scn["tasks"])) else "no_cancel:one_queue")),
+                        violate("no_lost_wakeup", "waiter_blocked_with_free_capacity:" + ("several_host_queues" if (lph and len({endpoint_of_task(t_) for t_ in all_reqs}) > 1)
+                                                                                    else ("after_waiter_cancelled_or_timed_out" if (H.cancelled_while_requesting or any(t_["total"] for t_ in all_reqs)) else "no_cancel:one_queue")),
                                 f"task {i} (host {host}) still waits for a connection at quiescence although capacity is free: "
                                 f"in use={len(H.out)} establishing={H.est} limit={limit} per_host={lph}; "
                                 f"connector waiters={waiting} acquired={len(conn._acquired)}")
@@ -719,6 +806,8 @@ def run(scn, ch, log=False):
                            "closed_midway": int(state["closed"]), "closed_with_waiters_queued": int(bool(H.snap and H.snap["queued"])),
                            "attempts_after_close": H.post_close_attempts, "closed_via_session": int(bool(H.snap) and scn.get("close_via") == "session"),
                            "cancel_fired": st["faults"].get("cancel", 0),
+                           "followup_requests": H.followups, "cancel_by_task": st["faults"].get("cancel_by_task", 0),
+                           "waiter_cancelled_by_task": H.cancelled_in_queue_by_task,
                            "proxy_connects": srv.connects, "tunnels_refused": st["faults"].get("connect_refused_by_proxy", 0),
                            "tls_upgrades": H.tls_ok,
                            "phases_" + "_".join(sorted({p.split(":")[0] for p in phase.values()})): 1},
